@@ -7,7 +7,10 @@ package main
 import (
 	"fmt"
 	"hash/fnv"
+	"os"
+	"runtime/debug"
 	"sort"
+	"strings"
 
 	"github.com/utreexo/utreexo"
 )
@@ -254,14 +257,44 @@ func eqU64s(a, b []uint64) bool {
 	return true
 }
 
-// protect runs f and converts a panic into an error string.
+// protect runs f and converts a panic into an error string.  Only a panic that
+// originates in the library is turned into a finding: when the frame that
+// panicked belongs to the harness itself, that is a defect of the machinery
+// and the process stops with exit code 4 (an infrastructure error, never a
+// verdict).
 func protect(f func()) (panicked string) {
 	defer func() {
 		if r := recover(); r != nil {
+			stack := string(debug.Stack())
+			if origin := panicOrigin(stack); strings.HasPrefix(origin, "main.") {
+				fmt.Fprintf(os.Stderr, "HARNESS PANIC (defect of the verification harness, not of the library): %v\n%s\n", r, stack)
+				os.Exit(4)
+			}
 			panicked = fmt.Sprint(r)
 		}
 	}()
 	f()
+	return ""
+}
+
+// panicOrigin returns the function of the first frame below the panic call
+// that is not part of the Go runtime.
+func panicOrigin(stack string) string {
+	lines := strings.Split(stack, "\n")
+	seenPanic := false
+	for _, l := range lines {
+		if strings.HasPrefix(l, "\t") || l == "" {
+			continue
+		}
+		if strings.HasPrefix(l, "panic(") {
+			seenPanic = true
+			continue
+		}
+		if !seenPanic || strings.HasPrefix(l, "runtime.") || strings.HasPrefix(l, "runtime/") {
+			continue
+		}
+		return l
+	}
 	return ""
 }
 
